@@ -588,6 +588,18 @@ def run_job(job):
                     for c in row:
                         if not z3.is_false(c.dc):
                             extra.append(znot(c.dc))
+        uf = any(rel._uses_uf(c.val) for sr in (info.get("a"), info.get("b")) if sr is not None and sr.ok for row in sr.rows for c in row)
+        if uf:
+            # a difference that lives inside an uninterpreted function must show on the real engines: prefer non-degenerate inputs
+            nd = []
+            cells = [x for cols in info["tabs"].values() for cs in cols.values() for x in cs if x.kind in ("i", "f")]
+            for i, x in enumerate(cells):
+                nd.append(zor(x.null, C.num(x) >= 2))
+                for y in cells[:i]:
+                    nd.append(zor(x.null, y.null, C.real(x) != C.real(y)))
+            m = rel.nice_model(solver, info["tabs"], extra + nd)
+            if m is not None:
+                return m
         m = rel.nice_model(solver, info["tabs"], extra) if extra else None
         return m if m is not None else rel.nice_model(solver, info["tabs"])
 
@@ -729,7 +741,17 @@ def _confirm(h, eng, r):
                 all_ok = False
                 sides.append({"side": side.name, "detail": detail[:500]})
         f["engines"] = reals
-        if all_ok:
+        uf_involved = any(rel._uses_uf(c.val) for sr in (a, b) if sr.ok for row in sr.rows for c in row)
+        if all_ok and uf_involved and not (getattr(h.A, "is_reference", False) or getattr(h.B, "is_reference", False)):
+            # the models agree with the engines only up to uninterpreted functions: report only what the real engines show
+            ra, rb = reals[h.A.name], reals[h.B.name]
+            differ = (ra.get("exc") is None) != (rb.get("exc") is None) or (
+                ra.get("real") is not None and rb.get("real") is not None
+                and not rel.concrete_tables_match(ra["real"][0], ra["real"][1], rb["real"][0], rb["real"][1], ordered=bool(info.get("ordered"))))
+            f["status"] = "confirmed" if differ else "model_divergence"
+            if not differ:
+                f["divergence"] = [{"side": "both", "detail": "difference inside an uninterpreted function did not show on the real engines for this witness"}]
+        elif all_ok:
             f["status"] = "confirmed"
         else:
             f["status"] = "model_divergence"
